@@ -11,19 +11,16 @@ import (
 // The property C07 on the implementation's own observations: what the clients were told before the end of a
 // session (partitions, acknowledged events, pipe definitions) against what the next start shows.
 
+// recorded findings (known_findings.d/C07.txt); every other class is a violation
 var knownClasses = map[string]bool{
-	"clean-stop-loses-acknowledged-events":      true,
-	"refuses-start:tindex-renamed":              true,
-	"refuses-start:tindex-torn":                 true,
 	"refuses-start:tindex-orphan":               true,
-	"refuses-start:pipes-torn":                  true,
-	"partition-lost:tindex-renamed":             true,
-	"crash-loses-pipe-definition":               true,
-	"crash-resurrects-deleted-pipe":             true,
 	"range-hides-events:cindex-stale":           true,
 	"range-hides-events:after-kill":             true,
 	"range-hides-events:index-ahead-of-journal": true,
 }
+
+// crashed: the session ended without the shutdown sequence having run (to its end)
+func crashed(ss Session) bool { return ss.End != "stop" }
 
 func eqI64(a, b []int64) bool {
 	if len(a) != len(b) {
@@ -40,9 +37,6 @@ func eqI64(a, b []int64) bool {
 func isPrefix(a, b []int64) bool { return len(a) <= len(b) && eqI64(a, b[:len(a)]) }
 
 func has(ss []Surgery, kind string) bool {
-	if fixedSavers && (kind == "tindex-renamed" || kind == "pipes-drop") {
-		return false // not a crash-shaped state of the atomic savers: the surgery does nothing
-	}
 	for _, s := range ss {
 		if s.Kind == kind {
 			return true
@@ -115,13 +109,15 @@ func oracle(sc *Scenario, tr *trace) (*Violation, bool, bool, []int) {
 				delete(pipes, st.Name)
 			}
 		}
-		if ss.End == "kill" || len(ss.Surgery) > 0 {
+		if crashed(ss) || len(ss.Surgery) > 0 {
 			hazard = true
 		}
 		for p := range acked {
 			if len(acked[p]) != len(flushed[p]) {
-				hazard = true
-				tainted[p] = true
+				hazard = true // a graceful stop has to flush them; a crash may lose them ...
+				if crashed(ss) {
+					tainted[p] = true // ... and then the time index describes records the journal does not have
+				}
 			}
 		}
 		S := ss.Surgery
@@ -130,13 +126,13 @@ func oracle(sc *Scenario, tr *trace) (*Violation, bool, bool, []int) {
 		if !o.Started {
 			reason := "unexplained-after-" + ss.End
 			switch {
-			case strings.Contains(o.Err, "tindex") && strings.Contains(o.Err, "inconsistent") && has(S, "tindex-renamed"):
-				reason = "tindex-renamed"
 			case strings.Contains(o.Err, "tindex") && strings.Contains(o.Err, "inconsistent") && has(S, "tindex-orphan"):
 				reason = "tindex-orphan"
+			case strings.Contains(o.Err, "tindex") && strings.Contains(o.Err, "inconsistent") && has(S, "tindex-torn"):
+				reason = "tindex-renamed" // the saver had moved tindex.dat away when it died
 			case strings.Contains(o.Err, "tindex") && strings.Contains(o.Err, "JSON") && has(S, "tindex-torn"):
 				reason = "tindex-torn"
-			case strings.Contains(o.Err, "pipe.Service") && has(S, "pipes-torn"):
+			case strings.Contains(o.Err, "pipe.Service") && ss.End == "crash-stop":
 				reason = "pipes-torn"
 			}
 			add("refuses-start:"+reason, "%s: the server refuses to start: %s", where, o.Err)
@@ -157,8 +153,8 @@ func oracle(sc *Scenario, tr *trace) (*Violation, bool, bool, []int) {
 			pv := o.Parts[p]
 			if registered[p] && !pv.Exists {
 				reason := "unexplained-after-" + ss.End
-				if has(S, "tindex-renamed") {
-					reason = "tindex-renamed"
+				if has(S, "tindex-torn") {
+					reason = "tindex-renamed" // the saver had moved tindex.dat away when it died
 				}
 				add("partition-lost:"+reason, "%s: partition %d was acknowledged and is gone", where, p)
 				registered[p], acked[p], flushed[p] = false, nil, nil
@@ -174,7 +170,7 @@ func oracle(sc *Scenario, tr *trace) (*Violation, bool, bool, []int) {
 			case eqI64(pv.Events, acked[p]):
 			case isPrefix(flushed[p], pv.Events) && isPrefix(pv.Events, acked[p]):
 				// a crash may lose what was not flushed yet; a graceful stop may not
-				if ss.End == "stop" {
+				if !crashed(ss) {
 					add("clean-stop-loses-acknowledged-events", "%s: partition %d: acknowledged %v, after the graceful stop and restart %v", where, p, acked[p], pv.Events)
 				}
 			default:
@@ -199,7 +195,7 @@ func oracle(sc *Scenario, tr *trace) (*Violation, bool, bool, []int) {
 					reason = "index-ahead-of-journal"
 				} else if has(S, "cindex-stale") {
 					reason = "cindex-stale"
-				} else if ss.End == "kill" {
+				} else if crashed(ss) {
 					reason = "after-kill"
 				}
 				add("range-hides-events:"+reason, "%s: partition %d holds %v, RANGE [%d:%d] answered %v before and answers %v now", where, p, pv.Events, sc.Range[0], sc.Range[1], before, o.Ranges[p])
@@ -223,7 +219,7 @@ func oracle(sc *Scenario, tr *trace) (*Violation, bool, bool, []int) {
 					lost = true
 				}
 			}
-			crashy := ss.End == "kill" || has(S, "pipes-drop")
+			crashy := crashed(ss)
 			switch {
 			case crashy && lost:
 				add("crash-loses-pipe-definition", "%s: acknowledged pipes %v, after the crash %v", where, want, o.Pipes)
